@@ -110,6 +110,19 @@ def run(ctx):
     name_terms(cum=ls.lh[cum_key])
     breaks = [(e, st) for e, st in zip(ls.exits, ls.exit_states) if e[0] == 'break']
     strict = T.cmp('lt', r, cum_next)
+    rets = [e for e in ls.exits if e[0] == 'return']
+    if len(rets) == 1 and len(ls.exits) == 1:
+        # early-return form: `if r < cum { return i }` inside the scan, the fallback index after it
+        econd = rets[0][2]
+        ctx.eq('C16.sample.strict', A, 'scan', econd, strict, rule='closed-comparison' if econd is T.cmp('le', r, cum_next) else None,
+               why='with r in [0,1) the selection comparison must be strict: r <= cum selects index 0 at r = 0 even when probs[0] = 0', sp=ls.sp)
+        ret = ev.ret_term
+        okform = ret[0] == 'ite' and ret[1] is econd
+        ctx.check('C16.sample.result_is_index', A, 'result_is_index', okform and ret[2] is it, expected='the scan returns the enumerate index at the first r < cum',
+                  found=show(ret)[:200], sp=ls.sp, why='the returned category is the first index with r < cum')
+        ctx.eq('C16.sample.fallback_in_range', A, 'fallback_in_range', ret[3] if okform else ret, T.sub(n, T.ONE),
+               why='if the scan never selects (rounding), the result is the last valid index', sp=sp)
+        return
     if len(breaks) != 1 or len(ls.exits) != 1:
         ctx.bad('C16.sample.strict', A, 'scan', expected='exactly one exit: break when r < cum', found='%d exits' % len(ls.exits), sp=ls.sp,
                 why='selection is the first index whose cumulative probability exceeds the variate')
